@@ -599,6 +599,9 @@ func (r *jcRunner) inv(v jcVec) {
 		r.fees[fmt.Sprintf("%s/%s", o.op, v.Fork)] = uint64(fee)
 	} else if diff <= 0 {
 		r.miss("jc.fee", "%s: the journal instruction is not charged in a static frame", desc)
+	} else {
+		// gas that the callee does not use comes back in full, so the difference seen by the wrapper is the callee's difference
+		r.fees[fmt.Sprintf("%s/%s/static", o.op, v.Fork)] = uint64(diff + int64(2*o.pops))
 	}
 }
 
